@@ -1036,6 +1036,12 @@ fn code_bytes(rng: &mut Rng, arch: Arch, at: u64) -> Vec<u8> {
     let mut slots: Vec<Slot> = Vec::new();
     let n = rng.range(1, 5);
     let straight = crate::c06::straight_units(arch);
+    if arch.is_mips() && rng.chance(1, 6) {
+        // syscall / break / teq: the lifter turns them into intrinsics with empty lists
+        let w: u32 = *rng.pick(&[0x0000_000cu32, 0x0000_000d, 0x0085_0034]);
+        let b = if arch == Arch::Mips { w.to_be_bytes() } else { w.to_le_bytes() };
+        slots.push(Slot::Raw(asm::hex(&b)));
+    }
     for _ in 0..n {
         if !straight.is_empty() && rng.chance(1, 3) {
             // an instruction harvested from falcon's own lifter tests: richer IL for the
@@ -1271,7 +1277,11 @@ pub fn generate(run_seed: u64, index: u64) -> Script {
                         OpSpec::Load(s.0.into(), s.1, a)
                     }
                     17 => OpSpec::Nop,
-                    18 if !fault_free && g.rng.chance(1, 3) => OpSpec::Intrinsic,
+                    18 if !fault_free && g.rng.chance(1, 3) => match g.rng.below(3) {
+                        0 => OpSpec::Intrinsic,
+                        1 => OpSpec::IntrinsicWithLists(false),
+                        _ => OpSpec::IntrinsicWithLists(true),
+                    },
                     18 if !patch_words.is_empty() => {
                         let (a, w) = patch_words[g.rng.usize_below(patch_words.len())].clone();
                         OpSpec::Store(ExprSpec::cu(a, 64), ExprSpec::c(&w))
